@@ -524,6 +524,17 @@ func (g *LookupGen) Info(gsub bool) *gtab.Info {
 				f.Lookups = append(f.Lookups, gtab.LookupIndex(l))
 			}
 		}
+		if t.Chance(1, 3) {
+			// the order of the lookup indices in a feature carries no
+			// meaning; fonts list them unsorted and sometimes twice
+			for j := len(f.Lookups) - 1; j > 0; j-- {
+				k := t.Draw(j + 1)
+				f.Lookups[j], f.Lookups[k] = f.Lookups[k], f.Lookups[j]
+			}
+			if t.Chance(1, 3) {
+				f.Lookups = append(f.Lookups, f.Lookups[0])
+			}
+		}
 		info.FeatureList = append(info.FeatureList, f)
 	}
 	info.ScriptList = g.ScriptList(nf, t.Range(1, 4))
